@@ -58,9 +58,6 @@ theorem chkInt_of_bound (x : Int) (h0 : 0 ≤ x) (h1 : x < (pow2_256 : Int)) : c
   have : x.natAbs < pow2_256 := by omega
   simp [this]
 
-/-- 2^255 as an integer: amounts below it survive the 18-decimal scaling of `LegacyNewDecFromInt` -/
-def pow2_255 : Int := 57896044618658097711785492504343953926634992332820282019728792003956564819968
-
 /-- `LegacyNewDecFromInt(amount).Mul(rate).TruncateInt()` for `0 ≤ rate ≤ 1`, `0 ≤ amount < 2^255`:
     no abort, and the result lies in `[0, amount]` -/
 theorem mulRateTrunc (amount : Int) (r : Dec) (h0 : 0 ≤ amount) (hb : amount < pow2_255)
@@ -187,20 +184,24 @@ theorem coinPositive_ok {c : Coin} (h : coinPositive c = .ok ()) : ∃ a, c.amou
     · rename_i hp; exact ⟨a, ha, hp⟩
     · simp at h
 
-theorem coinswapValidate_ok {p : CoinswapParams} (h : coinswapValidate p = .ok ()) :
+theorem coinswapValidateWith_ok {c : Bool} {p : CoinswapParams} (h : coinswapValidateWith c p = .ok ()) :
     (∃ fee, p.fee = some fee ∧ 0 < fee.raw ∧ fee.raw < precision) ∧
     (∃ a, p.poolCreationFee.amount = some a ∧ 0 < a) ∧
     (∃ tax, p.taxRate = some tax ∧ 0 < tax.raw ∧ tax.raw < precision) ∧
-    (∃ u, p.unilateralLiquidityFee = some u ∧ 0 ≤ u.raw ∧ u.raw < precision) := by
-  unfold coinswapValidate at h
+    (∃ u, p.unilateralLiquidityFee = some u ∧ 0 ≤ u.raw ∧ u.raw < precision) ∧
+    (c = true → validDenom p.poolCreationFee.denom = true) := by
+  unfold coinswapValidateWith at h
   split at h
   · simp at h
   · rename_i h1; split at h
     · simp at h
     · rename_i h2; split at h
       · simp at h
-      · rename_i h3
-        exact ⟨decOpenOpen_ok h1, coinPositive_ok h2, decOpenOpen_ok h3, decClosedOpen_ok h⟩
+      · rename_i hden; split at h
+        · simp at h
+        · rename_i h3
+          refine ⟨decOpenOpen_ok h1, coinPositive_ok h2, decOpenOpen_ok h3, decClosedOpen_ok h, ?_⟩
+          intro hc; subst hc; simpa using hden
 
 theorem coinIsValid_ok {c : Coin} (h : coinIsValid c = true) :
     validDenom c.denom = true ∧ ∃ a, c.amount = some a ∧ 0 ≤ a := by
@@ -284,11 +285,12 @@ theorem intIsNegative_ok {i : Option Int} {b : Bool} (h : intIsNegative i = .ok 
   · simp at h
   · rename_i a; simp at h; exact ⟨a, rfl, h.symm⟩
 
-theorem tokenValidate_ok {p : TokenParams} (h : tokenValidate p = .ok ()) :
+theorem tokenValidateWith_ok {c : Bool} {p : TokenParams} (h : tokenValidateWith c p = .ok ()) :
     (∃ t, p.tokenTaxRate = some t ∧ 0 ≤ t.raw ∧ t.raw ≤ precision) ∧
     (∃ r, p.mintTokenFeeRatio = some r ∧ 0 ≤ r.raw ∧ r.raw ≤ precision) ∧
-    (∃ a, p.issueTokenBaseFee.amount = some a ∧ 0 ≤ a) := by
-  unfold tokenValidate at h
+    (∃ a, p.issueTokenBaseFee.amount = some a ∧ 0 ≤ a) ∧
+    (c = true → validDenom p.issueTokenBaseFee.denom = true) := by
+  unfold tokenValidateWith at h
   split at h
   · simp at h
   · rename_i h1; split at h
@@ -297,10 +299,15 @@ theorem tokenValidate_ok {p : TokenParams} (h : tokenValidate p = .ok ()) :
       · simp at h
       · rename_i neg h3
         obtain ⟨a, ha, hneg⟩ := intIsNegative_ok h3
-        refine ⟨decClosedClosed_ok h1, decClosedClosed_ok h2, a, ha, ?_⟩
         split at h
         · simp at h
-        · rename_i hn; subst hneg; simpa using hn
+        · rename_i hn
+          split at h
+          · simp at h
+          · rename_i hden
+            refine ⟨decClosedClosed_ok h1, decClosedClosed_ok h2, ⟨a, ha, ?_⟩, ?_⟩
+            · subst hneg; simpa using hn
+            · intro hc; subst hc; simpa using hden
 
 /-- what a validated HTLC asset satisfies -/
 structure AssetOk (a : AssetParam) : Prop where
@@ -577,10 +584,6 @@ theorem htltClaimIncoming_only_overflow {a : AssetParam} (ha : AssetOk a) (s : S
   · cases h
   · exact incrementCurrent_only_overflow ha _ amt k h
 
-
-/-- 2^128: the magnitude below which every parameter amount and counter keeps the handlers'
-    checked arithmetic far from the 256-bit limit -/
-def pow2_128 : Int := 340282366920938463463374607431768211456
 
 structure SupplySmall (s : Supply) : Prop where
   inc : 0 ≤ s.incoming ∧ s.incoming < pow2_128
@@ -873,5 +876,90 @@ theorem mintFeePath_noabort (p : TokenParams) (reg : TokenReg) (factor : Dec) (b
     have h1 : ¬ (mf < 0) := by omega
     simp only [hratio, ht, hmf, h1, if_false, htm, hrate, hsplit]
     simp
+
+/-! ## coinswap prices below 2^96 -/
+
+/-- 2^96 -/
+def pow2_96 : Int := 79228162514264337593543950336
+
+theorem deltaFeeInt_ok' (fee : Dec) (h0 : 0 ≤ fee.raw) (h1 : fee.raw < precision) :
+    deltaFeeInt (some fee) = .ok (precision - fee.raw) := by
+  have hd : chkDec (precision - fee.raw) = some (precision - fee.raw) := by
+    apply chkDec_of_bound
+    · omega
+    · unfold precision at *; unfold pow2_315; omega
+  have hi : chkInt (precision - fee.raw) = some (precision - fee.raw) := by
+    apply chkInt_of_bound
+    · omega
+    · unfold precision at *; unfold pow2_256; omega
+  simp [deltaFeeInt, Dec.sub, Dec.one, hd, hi]
+
+theorem quoP_ok {a b : Int} (hb : b ≠ 0) : quoP a b = .ok (a.tdiv b) := by
+  simp [quoP, I256.quo, hb]
+
+/-- `GetInputPrice` with amounts and reserves below 2^96 under a validated fee: no abort at all -/
+theorem inputPrice_noabort_bounded (fee : Dec) (h0 : 0 < fee.raw) (h1 : fee.raw < precision)
+    (ia ir ort : Int) (hia : 0 ≤ ia ∧ ia < pow2_96) (hir : 0 ≤ ir ∧ ir < pow2_96)
+    (hort : 0 ≤ ort ∧ ort < pow2_96) (hpos : 0 < ir ∨ 0 < ia) :
+    ∀ k, inputPrice ia ir ort (some fee) ≠ .error (.panic k) := by
+  set df := precision - fee.raw with hdf
+  have hdf0 : 0 < df := by omega
+  have hdf1 : df ≤ 1000000000000000000 := by unfold precision at *; omega
+  have hx0 : 0 ≤ ia * df := Int.mul_nonneg hia.1 (by omega)
+  have hx1 : ia * df ≤ pow2_96 * 1000000000000000000 :=
+    Int.mul_le_mul (by omega) hdf1 (by omega) (by unfold pow2_96; omega)
+  have hy0 : 0 ≤ ia * df * ort := Int.mul_nonneg hx0 hort.1
+  have hy1 : ia * df * ort ≤ pow2_96 * 1000000000000000000 * pow2_96 :=
+    Int.mul_le_mul hx1 (by omega) hort.1 (by unfold pow2_96; omega)
+  have e1 : mulP ia df = .ok (ia * df) := mulP_ok hx0 (by unfold pow2_96 at hx1; unfold pow2_256; omega)
+  have e2 : mulP (ia * df) ort = .ok (ia * df * ort) :=
+    mulP_ok hy0 (by unfold pow2_96 at hy1; unfold pow2_256; omega)
+  have e3 : mulP ir precision = .ok (ir * precision) :=
+    mulP_ok (by unfold precision; omega) (by unfold precision pow2_256; unfold pow2_96 at hir; omega)
+  have e4 : addP (ir * precision) (ia * df) = .ok (ir * precision + ia * df) :=
+    addP_ok (by unfold precision; omega) (by unfold precision pow2_256; unfold pow2_96 at hir hx1; omega)
+  have hden : ir * precision + ia * df ≠ 0 := by
+    rcases hpos with hp | hp
+    · have : 0 < ir * precision := Int.mul_pos hp (by unfold precision; omega)
+      omega
+    · have : 0 < ia * df := Int.mul_pos hp hdf0
+      have : 0 ≤ ir * precision := Int.mul_nonneg hir.1 (by unfold precision; omega)
+      omega
+  intro k
+  simp [inputPrice, deltaFeeInt_ok fee h0 h1, ← hdf, e1, e2, e3, e4, quoP_ok hden]
+
+/-- `GetOutputPrice` likewise, when less than the reserve is bought -/
+theorem outputPrice_noabort_bounded (fee : Dec) (h0 : 0 < fee.raw) (h1 : fee.raw < precision)
+    (oa ir ort : Int) (hoa : 0 ≤ oa ∧ oa < pow2_96) (hir : 0 ≤ ir ∧ ir < pow2_96)
+    (hort : 0 ≤ ort ∧ ort < pow2_96) (hlt : oa < ort) :
+    ∀ k, outputPrice oa ir ort (some fee) ≠ .error (.panic k) := by
+  set df := precision - fee.raw with hdf
+  have hdf0 : 0 < df := by omega
+  have hdf1 : df ≤ 1000000000000000000 := by unfold precision at *; omega
+  have hx0 : 0 ≤ ir * oa := Int.mul_nonneg hir.1 hoa.1
+  have hx1 : ir * oa ≤ pow2_96 * pow2_96 :=
+    Int.mul_le_mul (by omega) (by omega) hoa.1 (by unfold pow2_96; omega)
+  have e1 : mulP ir oa = .ok (ir * oa) := mulP_ok hx0 (by unfold pow2_96 at hx1; unfold pow2_256; omega)
+  have hn0 : 0 ≤ ir * oa * precision := Int.mul_nonneg hx0 (by unfold precision; omega)
+  have hn1 : ir * oa * precision < (pow2_256 : Int) - 1 := by
+    unfold pow2_96 at hx1; unfold precision pow2_256; omega
+  have e2 : mulP (ir * oa) precision = .ok (ir * oa * precision) := mulP_ok hn0 (by omega)
+  have e3 : subP ort oa = .ok (ort - oa) := by
+    unfold subP I256.sub
+    rw [chkInt_of_bound _ (by omega) (by unfold pow2_96 at hort; unfold pow2_256; omega)]
+  have hd0 : 0 < (ort - oa) * df := Int.mul_pos (by omega) hdf0
+  have hd1 : (ort - oa) * df ≤ pow2_96 * 1000000000000000000 :=
+    Int.mul_le_mul (by omega) hdf1 (by omega) (by unfold pow2_96; omega)
+  have e4 : mulP (ort - oa) df = .ok ((ort - oa) * df) :=
+    mulP_ok (by omega) (by unfold pow2_96 at hd1; unfold pow2_256; omega)
+  have hq : (ir * oa * precision).tdiv ((ort - oa) * df) = (ir * oa * precision) / ((ort - oa) * df) :=
+    Int.tdiv_eq_ediv_of_nonneg hn0
+  have hq0 : 0 ≤ (ir * oa * precision) / ((ort - oa) * df) := Int.ediv_nonneg hn0 (by omega)
+  have hq1 : (ir * oa * precision) / ((ort - oa) * df) ≤ ir * oa * precision :=
+    Int.ediv_le_self _ hn0
+  have e5 : addP ((ir * oa * precision) / ((ort - oa) * df)) 1 = .ok ((ir * oa * precision) / ((ort - oa) * df) + 1) :=
+    addP_ok (by omega) (by omega)
+  intro k
+  simp [outputPrice, deltaFeeInt_ok fee h0 h1, ← hdf, e1, e2, e3, e4, quoP_ok (by omega : (ort - oa) * df ≠ 0), hq, e5]
 
 end Irismod.Params
